@@ -1,5 +1,6 @@
 //! C06 — batching partitions the item stream and respects the batch limit.
 use crate::core::*;
+use crate::gen;
 use rand::seq::IndexedRandom;
 use rand::Rng as _;
 use serde::{Deserialize, Serialize};
@@ -139,6 +140,8 @@ fn ids(batches: &[Vec<It>]) -> Vec<Vec<usize>> {
 
 fn gen_sizes(rng: &mut Rng, limit: usize, tier: Tier) -> Vec<usize> {
     let n: usize = match rng.random_range(0..100) {
+        // `large` lane: up to 100 000 items (beyond u16)
+        _ if gen::scale() > 1 => rng.random_range(201..=gen::sc(400)),
         0..=2 => 0,
         3..=9 => rng.random_range(1..=3),
         10..=64 => rng.random_range(4..=40),
@@ -204,9 +207,15 @@ impl Prop for C06 {
     const ID: &'static str = "C06";
 
     fn lanes(tier: Tier) -> Vec<Lane> {
-        vec![Lane::new("main", tier.pick(2_000_000, 12_000_000))
-            .cap(tier.pick(150, 1200))
-            .floor(tier.pick(100_000, 600_000))]
+        vec![
+            Lane::new("main", tier.pick(2_000_000, 12_000_000))
+                .cap(tier.pick(150, 1200))
+                .floor(tier.pick(100_000, 600_000)),
+            // streams of 201 - 100 000 items, limits and prefetch factors around 2^8 / 2^16 / 2^20
+            Lane::new("large", tier.pick(3_000, 60_000))
+                .cap(tier.pick(150, 1200))
+                .floor(tier.pick(200, 4_000)),
+        ]
     }
 
     fn rule() -> &'static str {
@@ -238,7 +247,9 @@ impl Prop for C06 {
     }
 
     fn generate(rng: &mut Rng, tier: Tier, _lane: &str) -> Case {
-        let batch_limit = if rng.random_bool(0.8) {
+        let batch_limit = if gen::scale() > 1 && rng.random_bool(0.5) {
+            *[255usize, 256, 1000, 4096, 65_535, 65_536, 70_000, 1 << 20].choose(rng).unwrap()
+        } else if rng.random_bool(0.8) {
             *[0usize, 1, 2, 3, 8, 64, 257].choose(rng).unwrap()
         } else {
             rng.random_range(1..=300)
@@ -250,7 +261,20 @@ impl Prop for C06 {
             5..=6 => (false, true),
             _ => (true, true),
         };
-        let prefetch_factor = *[0usize, 1, 2, 7, 32].choose(rng).unwrap();
+        let prefetch_factor = if gen::scale() > 1 && rng.random_bool(0.4) {
+            *[255usize, 256, 1000, 65_536].choose(rng).unwrap()
+        } else {
+            *[0usize, 1, 2, 7, 32].choose(rng).unwrap()
+        };
+        let mut sizes = sizes;
+        if gen::scale() > 1 && (sort || shuffle) {
+            // the repo re-sorts / re-shuffles the whole prefetch buffer for every batch: keep
+            // buffer length x number of batches (<= items) below ~3e7 element visits
+            let buffer = |n: usize| n.min(batch_limit.max(1).saturating_mul(prefetch_factor.max(1)) + 1);
+            while buffer(sizes.len()) * sizes.len() > 30_000_000 {
+                sizes.truncate(sizes.len() / 2);
+            }
+        }
         let padded = rng.random_bool(0.6);
         let seed = if rng.random_bool(0.2) {
             rng.random_range(0..4)
@@ -258,13 +282,17 @@ impl Prop for C06 {
             rng.random()
         };
         // direct call of the window search
-        let m = rng.random_range(0..=24);
+        let m = rng.random_range(0..=gen::sc(24).min(3000));
         let hi = *[1usize, 2, 4, 9, 30].choose(rng).unwrap();
         let mut sub_values: Vec<usize> = (0..m).map(|_| rng.random_range(0..=hi)).collect();
         if rng.random_bool(0.6) {
             sub_values.sort();
         }
-        let sub_k = *[0usize, 1, 2, 3, 5, 8, 20, 64].choose(rng).unwrap();
+        let sub_k = if gen::scale() > 1 && rng.random_bool(0.5) {
+            *[255usize, 256, 1000, 5000].choose(rng).unwrap()
+        } else {
+            *[0usize, 1, 2, 3, 5, 8, 20, 64].choose(rng).unwrap()
+        };
         let sub_fn = rng.random_range(0..3);
         Case {
             sizes,
